@@ -63,6 +63,8 @@ func runC06(r *fw.Run, p *fw.Program) {
 	c06Bounds(r, p, reach)
 	c06Sentinel(r, p, reach)
 	c06WrapGuard(r, p)
+	c06ForceEq(r, p)
+	c06ExploreArrays(p)
 	c06Sym(r, p)
 	c06OutType(r, p)
 }
